@@ -117,7 +117,8 @@ CLAIMS = {
             "every POSIX ERE metacharacter, the pattern is anchored, and the whitelist suppressions take their regex "
             "only from generate_from_strings; R-OPTARITY: every option that reads an operand consumes it (abidiff "
             "--keep-fn/--keep-var did not: repaired); R-KEEPDROP: keep/drop patterns stored into a corpus are applied "
-            "to its exported sets on every path (abidiff never did: repaired)",
+            "to its exported sets on every path (abidiff never did: repaired); R-WLONCE: the generator of whitelist "
+            "suppressions is called once, with all the whitelist files (one call per file would intersect the lists)",
             "which declarations the compiled pattern then keeps or drops (runtime); user --keep/--drop patterns are "
             "compiled unmodified by design",
             "§3 R-RXESC; §4 C27"),
@@ -137,7 +138,9 @@ CLAIMS = {
             "default-version re-export rule) in the declared and in the unreferenced-symbol regions; R-VERLOOKUP: the "
             "lookup behind both answers only with the requested version; R-SYMDIFF: deletions index the first corpus and are "
             "reported exactly when the symbol is not found in the second, insertions the other way round (worlds found / "
-            "not found over both unreferenced-symbol regions)",
+            "not found over both unreferenced-symbol regions); a deleted symbol is only looked up by name and version (the "
+            "re-export rule belongs to the addition half) and no added symbol is looked up by name alone; helpers that are "
+            "handed a corpus are followed",
             "the edit scripts over the runtime symbol sets (diff_utils)",
             "§3 R-SIBSYM; §4 C19"),
     "C28": ("who-gates rule: every is_linux_kernel() value that selects ksymtab filtering is conjoined with, or "
@@ -265,7 +268,8 @@ CLAIMS = {
             "no string read from the IR reaches the XML stream without the sanitiser of its context (attribute / "
             "comment), the sanitiser covers < > & ' \", and every type-id written as a reference is followed on every "
             "path by record_type_as_referenced - before or after, directly or through an id helper that is summarised "
-            "from its CFG - (definitions by record_*_as_emitted); R-IDUNIQ: hash-style ids are registered as used",
+            "from its CFG - (definitions by record_*_as_emitted); R-IDUNIQ: hash-style ids are registered as used; "
+            "R-ESC/SIGN: the sanitisers never use a plain (signed) char numerically - a non-ASCII byte is negative",
             "that elf-symbol-id references name symbols present in the symbol tables (runtime set relation); control "
             "characters are a recorded finding",
             "§3 R-ESC, R-IDREF; §4 C04"),
@@ -325,7 +329,10 @@ CLAIMS = {
             "keep-list must not mean `keep everything` (decided by interpreting the filter in the empty-list world; it does, "
             "for both kinds: two recorded, replayed findings); R-USEDONLY/MATCH: every consumer of the keep-lists matches a "
             "kept id by (name, version), never by id-string equality with a library symbol (two sites found on the base "
-            "tree, replayed and repaired)",
+            "tree, replayed and repaired); R-DERIVCACHE: no lazily computed member of corpus::priv is computed before a "
+            "member it is computed from is replaced (caches and dependencies found structurally); R-INVBREAK: every search "
+            "loop of the ELF helpers tests something the loop changes (the Vernaux walk did not: undefined symbols lost "
+            "their versions - replayed and repaired)",
             "which interfaces the undefined symbols resolve to; weak mode's type comparison (runtime)",
             "§8.6 (added after the design: C29 was first declared not applicable)"),
     "C13": ("control-dependence rule over the stores into the atoms of corpus_diff::has_incompatible_changes",
@@ -403,7 +410,8 @@ CLAIMS = {
             "a declaration is exposed in the interface only with a public symbol of the right kind attached (R-EXPGATE, "
             "R-PUBSYM, R-EXPORTEDPRED), and the symbols not referenced by debug info are the complement - over the same "
             "filter as the corpus' symbol table - of the symbols and aliases of the exposed declarations (R-UNREF): no "
-            "symbol can be both or neither because of the bookkeeping",
+            "symbol can be both or neither because of the bookkeeping; R-ADDRTOTAL: the address getters of the DWARF reader "
+            "return true whenever the DIE yields an address (no address is rejected because of its value)",
             "which declaration the debug info attaches to which symbol (addresses, linkage names, DWARF) is runtime; "
             "the CTF reader is not in this build",
             "§8.6 (added after the design: C17 was first declared not applicable)"),
@@ -415,7 +423,8 @@ CLAIMS = {
             "partition of what is loaded), R-SYMFILTER (corpus filter evaluated by symtab_filter::matches = public && kind), "
             "R-SYMSECT (writer sections), R-SYMSEL (.symtab/.dynsym choice per e_type), R-SYMALIAS (same address => alias "
             "of the symbol found there), R-VERDEFAULT (default mark = negated hidden bit), R-SYMSRC (the symbol table is "
-            "loaded from the ELF handle of the binary itself, never from the debug-info file)",
+            "loaded from the ELF handle of the binary itself, never from the debug-info file), R-INVBREAK (search loops of "
+            "the ELF helpers and of the symtab reader look at what they step over)",
             "names, sizes, addresses, version strings and the alias groups themselves are values read from the binary; "
             "agreement with readelf on them is runtime",
             "§8.6 (added after the design: C18 was first declared not applicable)"),
